@@ -19,6 +19,13 @@ instance (c : Cfg) (exp : Bool) (row : SvcRow) (s : Svc) : Decidable (SvcOK c ex
      (row.ifTypes = [] ∨ ∀ i ∈ nifs s, i.kind ∈ row.ifTypes))
     ⟨fun ⟨a, b, c, d, e, f⟩ => ⟨a, b, c, d, e, f⟩, fun h => ⟨h.ports, h.nstype, h.getters, h.required, h.forbidden, h.ifTypes⟩⟩
 
+instance (exp : Bool) (row : SvcRow) (s : Svc) : Decidable (SvcFull exp row s) :=
+  decidable_of_iff
+    ((∀ i ∈ s.ifs, (nifOf s i).isSome) ∧ NstypeOK exp row s (nifs s) ∧
+     (∀ p ∈ row.req, svcHas s (recordedSite row s) p = true) ∧ (∀ p ∈ row.forb, svcHas s (recordedSite row s) p = false) ∧
+     (row.ifTypes = [] ∨ ∀ i ∈ nifs s, i.kind ∈ row.ifTypes))
+    ⟨fun ⟨a, b, c, d, e⟩ => ⟨a, b, c, d, e⟩, fun h => ⟨h.ports, h.nstype, h.required, h.forbidden, h.ifTypes⟩⟩
+
 instance (c : Cfg) (row : NodeRow) (n : Node) : Decidable (NodeOK c row n) :=
   decidable_of_iff ((∀ p ∈ row.req, nodeSees c n p = true) ∧ (∀ p ∈ row.forb, nodeSees c n p = false))
     ⟨fun ⟨a, b⟩ => ⟨a, b⟩, fun h => ⟨h.required, h.forbidden⟩⟩
@@ -38,6 +45,8 @@ def decExistsRow {α : Type} (l : List (String × α)) (k : String) (P : α → 
 
 instance (c : Cfg) (exp : Bool) (s : Svc) : Decidable (∃ row, c.svc.lookup s.ty = some row ∧ SvcOK c exp row s) :=
   decExistsRow c.svc s.ty (fun row => SvcOK c exp row s)
+instance (c : Cfg) (exp : Bool) (s : Svc) : Decidable (∃ row, c.svc.lookup s.ty = some row ∧ SvcFull exp row s) :=
+  decExistsRow c.svc s.ty (fun row => SvcFull exp row s)
 instance (c : Cfg) (n : Node) : Decidable (∃ row, c.node.lookup n.ty = some row ∧ NodeOK c row n) :=
   decExistsRow c.node n.ty (fun row => NodeOK c row n)
 instance (c : Cfg) (n : Node) : Decidable (∃ row, c.node.lookup n.ty = some row ∧ NodeFull row n) :=
@@ -55,7 +64,7 @@ instance (c : Cfg) (t : Topo) : Decidable (SpecOK c t) :=
 instance (c : Cfg) (t : Topo) : Decidable (SpecFull c t) :=
   decidable_of_iff
     ((∀ n ∈ t.nodes, ∃ row, c.node.lookup n.ty = some row ∧ NodeFull row n) ∧
-     (∀ s ∈ t.svcs, ∃ row, c.svc.lookup s.ty = some row ∧ SvcOK c t.exp row s) ∧ InstOK c (t.svcs.map (recordSite c)))
+     (∀ s ∈ t.svcs, ∃ row, c.svc.lookup s.ty = some row ∧ SvcFull t.exp row s) ∧ InstOK c (t.svcs.map (recordSite c)))
     ⟨fun ⟨a, b, c⟩ => ⟨a, b, c⟩, fun h => ⟨h.nodes, h.svcs, h.instances⟩⟩
 
 end FimVerif.Validate
